@@ -23,6 +23,23 @@ def sqrt(x):
     return math.sqrt(x) if x >= 0 else float("nan")
 
 
+def acos(x):
+    """arccos as the engine models it (uninterpreted, congruence only) / math.acos concretely."""
+    if isinstance(x, Sym):
+        return E._as_real_sym(x).arccos()
+    return math.acos(max(-1.0, min(1.0, float(x))))
+
+
+def degrees(x, c):
+    if isinstance(x, Sym):
+        return x * 180 / c.pi()
+    return math.degrees(x)
+
+
+def clip(x, lo, hi):
+    return ite(x < lo, lo, ite(x > hi, hi, x))
+
+
 def And(*cs):
     cs = [c for c in cs]
     if any(isinstance(c, SymBool) for c in cs):
@@ -54,17 +71,20 @@ def ite(c, a, b):
     return a if c else b
 
 
-def eq(a, b):
-    """Exact equality as a condition (symbolic) / tolerant equality (concrete)."""
+def eq(a, b, tol=None):
+    """Exact equality as a condition (symbolic) / tolerant equality (concrete; tol = absolute tolerance
+    for quantities that are ill-conditioned in floating point, e.g. angles near 0 or 180 degrees)."""
     if is_sym(a) or is_sym(b):
         return a == b
+    if tol is not None:
+        return abs(float(a) - float(b)) <= tol
     return E._concrete_close(a, b)
 
 
-def le(a, b, slack=1e-4):
+def le(a, b, slack=1e-4, tol=0.0):
     if is_sym(a) or is_sym(b):
         return a <= b
-    return float(a) <= float(b) + slack * (1 + abs(float(a)) + abs(float(b)))
+    return float(a) <= float(b) + tol + slack * (1 + abs(float(a)) + abs(float(b)))
 
 
 def lt_strict(a, b):
@@ -183,8 +203,8 @@ class ConcreteCtx:
         self.obligations.append(E.Obligation(name, "discharged" if ok else "violated", detail))
         return ok
 
-    def prove_eq(self, name, a, b, detail=""):
-        ok = E._concrete_close(a, b, rtol=self.params.get("_rtol", 2e-3), atol=self.params.get("_atol", 2e-3))
+    def prove_eq(self, name, a, b, detail="", tol=None):
+        ok = E._concrete_close(a, b, rtol=self.params.get("_rtol", 2e-3), atol=tol if tol is not None else self.params.get("_atol", 2e-3))
         self.obligations.append(E.Obligation(name, "discharged" if ok else "violated", detail or f"{a!r} != {b!r}"))
         return ok
 
@@ -211,6 +231,9 @@ class ConcreteCtx:
 
     def simp(self, x):
         return x
+
+    def lemma(self, cond, timeout_ms=0):
+        return bool(cond)
 
 
 def run_concrete(fn, params: dict, model: dict):
